@@ -1,6 +1,12 @@
 (* Case runner and spec checker (T3) for C10.
-   Input of a case:  (argv0 (argv...) stdin (tree...) ((path single-run-stdout single-run-exit)...))
-   tree node:        (kind name payload)  kind 0 Reg 1 Dir 2 LinkFile 3 LinkDir 4 LinkNone 5 Fifo 6 Sock
+   Input of a case:  (argv0 (argv...) stdin (tree...) ((path single-run-stdout single-run-exit)...) delivery)
+   tree node:        (kind name payload [how])  kind 0 Reg 1 Dir 2 LinkFile 3 LinkDir 4 LinkNone 5 Fifo 6 Sock
+                     7 LinkOther (payload: resolved target kind 0 FIFO 1 socket 2 character device 3 loop
+                     4 unreadable file) 8 NoPerm; [how] tells the harness how the entry is made (absolute /
+                     relative / chained link, hard link, ...) and is not looked at here: only what the
+                     entry resolves to matters
+   delivery:         (mode (piece-length...) (pause-ms...)) how the bytes reach standard input: the pieces
+                     the writer writes (absent: all at once)
    Observation:      (stdout exit blocked crashed) *)
 From WI Require Import Lib.Base Lib.Info Lib.Strings Model.Walk.
 Open Scope N_scope.
@@ -17,7 +23,13 @@ Fixpoint node_of_arg (a : arg) : node :=
       | 3%Z => LinkDir name kids
       | 4%Z => LinkNone name
       | 5%Z => Fifo name
-      | _ => Sock name
+      | 6%Z => Sock name
+      | 7%Z => LinkOther name
+                 match rest with
+                 | AZ 0%Z :: _ => OFifo | AZ 1%Z :: _ => OSock | AZ 2%Z :: _ => OChar
+                 | AZ 3%Z :: _ => OLoop | _ => ONoPerm
+                 end
+      | _ => NoPerm name
       end
   | _ => Sock []
   end.
@@ -38,15 +50,24 @@ Definition body_of_oracle (o : list arg) (p c : bytes) : bytes :=
 (* the code under test: the repaired tree *)
 Definition quirks_now : quirks := repaired.
 
+(* the description of what was read from standard input: the recorded run on a file holding the
+   bytes the writer wrote -- provided these are the bytes the read loop hands to the parsers *)
+Definition body_with_stdin (o : list arg) (written : bytes) (p c : bytes) : bytes :=
+  if bytes_eqb p stdin_path then
+    if bytes_eqb c written then body_of_oracle o p c
+    else bs "<the bytes parsed are not the bytes written to standard input>"
+  else body_of_oracle o p c.
+
 Definition run_C10 (op : bytes) (input : arg) : arg :=
   let argv0 := arg_bytes (arg_nth 0 input) in
   let argv := map arg_bytes (arg_list (arg_nth 1 input)) in
   let stdin := arg_bytes (arg_nth 2 input) in
   let fs := map node_of_arg (arg_list (arg_nth 3 input)) in
   let oracle := arg_list (arg_nth 4 input) in
-  match main_run quirks_now fs argv stdin with
+  let pieces := map arg_nat (arg_list (arg_nth 1 (arg_nth 5 input))) in
+  match main_run_stream quirks_now fs argv (cut_at pieces stdin) with
   | (es, st) =>
-      let out := stdout_of (body_of_oracle oracle) argv0 es in
+      let out := stdout_of (body_with_stdin oracle stdin) argv0 es in
       match st with
       | Exit n => AL [AB out; AZ n; AZ 0; AZ 0]
       | Blocked _ => AL [AB out; AZ (-1); AZ 1; AZ 0]
@@ -95,7 +116,7 @@ Inductive item : Type :=
 Definition name_of (n : node) : bytes :=
   match n with
   | Reg a _ => a | Dir a _ => a | LinkFile a _ => a | LinkDir a _ => a
-  | LinkNone a => a | Fifo a => a | Sock a => a
+  | LinkNone a => a | Fifo a => a | Sock a => a | LinkOther a _ => a | NoPerm a => a
   end.
 
 (* [pre] is the directory's path with a trailing slash (or empty for the working directory);
@@ -107,7 +128,7 @@ Fixpoint items_of (n : node) : bytes -> nat -> list item :=
   | Dir a ch =>
       let subs := map (fun c => (name_of c, items_of c)) ch in
       fun pre d => flat_map (fun s => snd s (pre ++ a ++ [47]) (S d)) (sel_sort subs)
-  | LinkDir a _ | LinkNone a | Fifo a | Sock a => fun pre _ => [IBad (pre ++ a)]
+  | LinkDir a _ | LinkNone a | Fifo a | Sock a | LinkOther a _ | NoPerm a => fun pre _ => [IBad (pre ++ a)]
   end.
 Definition items_in (ch : list node) (pre : bytes) : list item :=
   flat_map (fun s => snd s pre 0%nat) (sel_sort (map (fun c => (name_of c, items_of c)) ch)).
@@ -140,8 +161,8 @@ Fixpoint descend (cur : list node) (cs : list bytes) : what :=
           | [], Some ch => WDir ch
           | [], None => match n with
                         | Reg _ _ | LinkFile _ _ => WFile n
-                        | LinkNone _ => WNone
-                        | Fifo _ => WFifo
+                        | LinkNone _ | LinkOther _ OLoop => WNone
+                        | Fifo _ | LinkOther _ OFifo => WFifo
                         | _ => WOther
                         end
           | _, Some ch => descend ch rest
@@ -190,6 +211,8 @@ Fixpoint drop_indented (fuel : nat) (s : bytes) : bytes :=
   | S f => match s with 32 :: _ => drop_indented f (drop_line s) | _ => s end
   end.
 Definition skip_report (s : bytes) : bytes := drop_indented (length s) (drop_line s).
+(* the same for a report known to start with "p: " (the name may contain line feeds) *)
+Definition skip_report_of (p s : bytes) : bytes := skip_report (drop (length p + 2) s).
 
 Definition verdict (msg : string) (p : bytes) : arg := AB (bs msg ++ p).
 Arguments verdict msg%string p.
@@ -207,7 +230,7 @@ Fixpoint consume (o : list arg) (items : list item) (rest : bytes) : arg :=
           then verdict "a regular file nested deeper than 1000 directories is not reported: " (drop (length p - 40) p)
           else verdict "a regular file is not reported at its place as in its single-file run (missing, misplaced, duplicated earlier, or suppressed by an earlier entry): " p
       | None =>   (* the file cannot even be inspected alone (path beyond the system limit): no demand *)
-          if prefix_of (p ++ [58; 32]) rest then consume o tl (skip_report rest) else consume o tl rest
+          if prefix_of (p ++ [58; 32]) rest then consume o tl (skip_report_of p rest) else consume o tl rest
       end
   | ILink p :: tl =>
       match single_of o p with
@@ -215,7 +238,7 @@ Fixpoint consume (o : list arg) (items : list item) (rest : bytes) : arg :=
       | None => consume o tl rest
       end
   | IBad p :: tl =>
-      if prefix_of (p ++ [58; 32]) rest then consume o tl (skip_report rest) else consume o tl rest
+      if prefix_of (p ++ [58; 32]) rest then consume o tl (skip_report_of p rest) else consume o tl rest
   end.
 
 (* argument vectors the checker understands: [-r|--r|-r=true]* [--] paths *)
